@@ -2,11 +2,11 @@
    Proved here, for every Zobrist table and every well-formed position (pos_ok: sentinel ring, king
    caches, castling rights only with king and rook at home, en-passant target behind a pawn that has just
    double-stepped, the side not to move not in check): every move the generator produces is a legal move
-   of the rules and every legal move of the rules is produced (Spec.legal_moves: pseudo-legal by the movement rules - pawn pushes, captures, en passant,
+   of the rules, every legal move of the rules is produced, and none is produced twice (Spec.legal_moves: pseudo-legal by the movement rules - pawn pushes, captures, en passant,
    promotions, knight and king steps, slider rays, castling with right/empty squares/unattacked start,
    transit and destination - and not leaving the mover's king attacked).
    The model is tied to the code by the correspondence with the implementation on every run. *)
-From Walleye Require Import Model.Successor Spec.Abs Proofs.MoveGenProofs Proofs.GenerateAbs Proofs.LegalMoves.
+From Walleye Require Import Model.Successor Spec.Abs Proofs.MoveGenProofs Proofs.GenerateAbs Proofs.LegalMoves Proofs.NoDupMoves.
 Open Scope Z_scope.
 
 (* soundness: no illegal move appears *)
@@ -21,6 +21,28 @@ Theorem C01_legal_moves_are_generated : forall zt s mv,
   pos_ok1 s -> In mv (legal_moves (abs s)) ->
   exists x, In x (generate_moves zt s AllMoves) /\ desc x = Some mv.
 Proof. exact legal_moves_are_generated. Qed.
+
+(* no move appears twice *)
+Theorem C01_no_move_twice : forall zt s,
+  pos_ok s AllMoves -> NoDup (map desc (generate_moves zt s AllMoves)).
+Proof. exact generated_moves_NoDup. Qed.
+
+(* the property as stated: the generated moves, identified by from-square, to-square and promotion piece,
+   are exactly the legal moves, each once *)
+Theorem C01_generated_moves_exactly_legal : forall zt s,
+  pos_ok1 s ->
+  (forall mv, In (Some mv) (map desc (generate_moves zt s AllMoves)) <-> In mv (legal_moves (abs s))) /\
+  (forall x, In x (generate_moves zt s AllMoves) -> desc x <> None) /\
+  NoDup (map desc (generate_moves zt s AllMoves)).
+Proof.
+  intros zt s PO. assert (PO' := PO). destruct PO' as [P _]. split; [|split].
+  - intros mv. split.
+    + intros H. apply in_map_iff in H. destruct H as [x [Hd Hx]].
+      destruct (generated_moves_are_legal zt s x P Hx) as [mv' [Hd' Hl]]. congruence.
+    + intros H. destruct (legal_moves_are_generated zt s mv PO H) as [x [Hx Hd]]. apply in_map_iff. exists x. auto.
+  - intros x Hx. destruct (generated_moves_are_legal zt s x P Hx) as [mv [Hd _]]. congruence.
+  - now apply generated_moves_NoDup.
+Qed.
 
 (* a probed square that passes is_check_cords is not next to the enemy king:
    the king test looks at the probed square, not at the own king's square *)
@@ -43,5 +65,7 @@ Proof. exact can_castle_wks_safe. Qed.
 
 Print Assumptions C01_generated_moves_are_legal.
 Print Assumptions C01_legal_moves_are_generated.
+Print Assumptions C01_no_move_twice.
+Print Assumptions C01_generated_moves_exactly_legal.
 Print Assumptions C01_probe_sees_enemy_king.
 Print Assumptions C01_castle_conditions.
